@@ -23,10 +23,14 @@ Defect(x) == x \in Defects
 
 ---------------------------------------------------------------------------
 (* Errors *)
-NoErr == [t |-> "none", opt |-> E, names |-> <<>>, word |-> E]
-Err(t, opt) == [t |-> t, opt |-> opt, names |-> <<>>, word |-> E]
-ErrNames(t, names) == [t |-> t, opt |-> E, names |-> names, word |-> E]
-ErrWord(t, word) == [t |-> t, opt |-> E, names |-> <<>>, word |-> word]
+\* aux: what the wording of the message depends on beyond type / option / names / word (ErrText.tla): the variant of
+\* "expected argument", the offending text, the option whose conversion failed
+NoAux == [k |-> "", a |-> E, o |-> 0]
+NoErr == [t |-> "none", opt |-> E, names |-> <<>>, word |-> E, aux |-> NoAux]
+Err(t, opt) == [t |-> t, opt |-> opt, names |-> <<>>, word |-> E, aux |-> NoAux]
+ErrAux(t, opt, k, a, o) == [t |-> t, opt |-> opt, names |-> <<>>, word |-> E, aux |-> [k |-> k, a |-> a, o |-> o]]
+ErrNames(t, names) == [t |-> t, opt |-> E, names |-> names, word |-> E, aux |-> NoAux]
+ErrWord(t, word) == [t |-> t, opt |-> E, names |-> <<>>, word |-> word, aux |-> NoAux]
 FlagsErrTypes == {"ErrExpectedArgument", "ErrUnknownFlag", "ErrMarshal", "ErrHelp", "ErrNoArgumentForBool",
                   "ErrRequired", "ErrCommandRequired", "ErrUnknownCommand", "ErrInvalidChoice"}
 \* "foreign"  : an error value that is not a *flags.Error (positional conversion, handler, Execute)
@@ -166,7 +170,7 @@ ApplySet(s, o, hasVal, txt, src) ==
               ELSE ConvScalar(od.vtype, od.base, t, s.ftab)
   IN
   IF od.choices # <<>> /\ ~hasVal /\ Defect("ChoiceOnFlagPanics") THEN fail(Err("panic", E))
-  ELSE IF od.choices # <<>> /\ hasVal /\ ~InSeq(od.choices, txt) THEN fail([Err("ErrInvalidChoice", OptString(s.d, od)) EXCEPT !.names = od.choices])    \* the message lists every allowed value
+  ELSE IF od.choices # <<>> /\ hasVal /\ ~InSeq(od.choices, txt) THEN fail([ErrAux("ErrInvalidChoice", OptString(s.d, od), "", txt, o) EXCEPT !.names = od.choices])    \* the message lists every allowed value
   ELSE IF od.kind \in {"help", "func0"} /\ hasVal THEN fail(Err("ErrNoArgumentForBool", OptString(s.d, od)))   \* a value from an INI entry or the environment
   ELSE IF od.kind = "help" THEN fail(Err("ErrHelp", E))
   ELSE IF od.kind = "func0" THEN
@@ -185,7 +189,7 @@ ApplySet(s, o, hasVal, txt, src) ==
   ELSE [s1 EXCEPT !.val[o] = <<conv.v>>]
 
 \* foreign errors from Set are wrapped as ErrMarshal naming the flag (parser.go:565-586)
-WrapMarshal(s, o) == IF s.perr.t = "foreign" THEN [s EXCEPT !.perr = Err("ErrMarshal", OptString(s.d, s.opts[o]))] ELSE s
+WrapMarshal(s, o) == IF s.perr.t = "foreign" THEN [s EXCEPT !.perr = ErrAux("ErrMarshal", OptString(s.d, s.opts[o]), "", E, o)] ELSE s
 
 RECURSIVE SetEach(_, _, _, _)
 SetEach(s, o, vs, src) ==
@@ -211,8 +215,8 @@ ParseOption(s, o, canarg, hasArg, arg) ==
       note(st, has, a) == [st EXCEPT !.occ = Append(@, [o |-> o, has |-> has, arg |-> a])]
       setWith(st, a) ==          \* unquote, then Set
          LET uq == IF od.unquote THEN UnquoteIfPossible(a) ELSE Okv(a) IN
-         IF uq.unspec THEN [st EXCEPT !.grey = TRUE, !.perr = Err("ErrMarshal", ostr)]
-         ELSE IF ~uq.ok THEN [st EXCEPT !.perr = Err("ErrMarshal", ostr)]
+         IF uq.unspec THEN [st EXCEPT !.grey = TRUE, !.perr = ErrAux("ErrMarshal", ostr, "", E, o)]
+         ELSE IF ~uq.ok THEN [st EXCEPT !.perr = ErrAux("ErrMarshal", ostr, "", E, o)]
          ELSE WrapMarshal(ApplySet(note(st, TRUE, uq.v), o, TRUE, uq.v, "cli"), o)
   IN
   IF FlagLike(od) THEN
@@ -223,17 +227,17 @@ ParseOption(s, o, canarg, hasArg, arg) ==
        LET a == Head(s.args)
            s1 == SetRole([sP EXCEPT !.args = Tail(@), !.cur = a], CurPos(s) + 1, "optarg")
        IN IF od.validator THEN
-               (IF ValidatorRejects(od, a) THEN [s1 EXCEPT !.perr = Err("ErrExpectedArgument", E)]
-                ELSE IF HasOpt(s, "PassDoubleDash") /\ a = <<DASH, DASH>> THEN [s1 EXCEPT !.perr = Err("ErrExpectedArgument", ostr)]
+               (IF ValidatorRejects(od, a) THEN [s1 EXCEPT !.perr = ErrAux("ErrExpectedArgument", E, "validator", a, o)]
+                ELSE IF HasOpt(s, "PassDoubleDash") /\ a = <<DASH, DASH>> THEN [s1 EXCEPT !.perr = ErrAux("ErrExpectedArgument", ostr, "dd", a, o)]
                 ELSE setWith(s1, a))
-          ELSE IF IsOption(a) /\ ~(SignedNumber(od) /\ NegNumberLike(a)) THEN [s1 EXCEPT !.perr = Err("ErrExpectedArgument", ostr)]
-          ELSE IF HasOpt(s, "PassDoubleDash") /\ a = <<DASH, DASH>> THEN [s1 EXCEPT !.perr = Err("ErrExpectedArgument", ostr)]
+          ELSE IF IsOption(a) /\ ~(SignedNumber(od) /\ NegNumberLike(a)) THEN [s1 EXCEPT !.perr = ErrAux("ErrExpectedArgument", ostr, "gotopt", a, o)]
+          ELSE IF HasOpt(s, "PassDoubleDash") /\ a = <<DASH, DASH>> THEN [s1 EXCEPT !.perr = ErrAux("ErrExpectedArgument", ostr, "dd", a, o)]
           ELSE setWith(s1, a)
   ELSE IF od.optional THEN
        \* option.empty(), then Set every optional-value (parser.go:551-560)
        LET s1 == [note(sP, FALSE, E) EXCEPT !.val[o] = IF od.kind \in {"func0", "func1"} THEN @ ELSE ZeroVal(od)] IN
        WrapMarshal(SetEach(s1, o, od.optvals, "cli"), o)
-  ELSE [sP EXCEPT !.perr = Err("ErrExpectedArgument", ostr)]
+  ELSE [sP EXCEPT !.perr = ErrAux("ErrExpectedArgument", ostr, "plain", E, o)]
 
 ---------------------------------------------------------------------------
 (* What happens to an option token whose handling failed (parser.go:287-308) *)
